@@ -1018,6 +1018,8 @@ pub fn href() -> BoxedStrategy<String> {
         1 => Just("#".to_string()),
         // a line feed inside the target (rendered as a space in the footnote)
         1 => "[a-z/.]{1,14}\n[a-z/.]{1,14}",
+        // wide and combining characters in the target (footnote wrapping works on display width)
+        1 => "[a-z/]{0,6}[\u{4e00}\u{4e01}\u{e9}\u{301}\u{ff21}]{1,4}[a-z/]{0,6}",
     ]
     .boxed()
 }
@@ -1294,6 +1296,23 @@ pub enum Mutation {
     Flip(u16, u8),
     Insert(u16, u8),
     Truncate(u16),
+    /// insert ` NAME="VALUE"` with one of the attributes the library reads and a generated value
+    #[serde(alias = "Attr")]
+    Attr(u16, u8, Vec<u8>),
+}
+
+/// attributes html2text looks at
+pub const ATTR_NAMES: &[&str] = &["color", "bgcolor", "colspan", "start", "href", "src", "alt", "id", "name", "class", "style", "rowspan"];
+/// alphabet of generated attribute values: digits, hex letters, signs, separators, 2-, 3- and 4-byte characters
+pub const ATTR_ALPHABET: &[&str] = &["0", "1", "9", "a", "f", "F", "z", "#", "-", "+", " ", ";", ":", "%", ".", "\u{e9}", "\u{4e2d}", "\u{1F600}", "\u{301}", "&#10;", "(", ")", ","];
+
+pub fn attr_text(name: u8, val: &[u8]) -> String {
+    let mut s = format!(" {}=\"", ATTR_NAMES[name as usize % ATTR_NAMES.len()]);
+    for v in val {
+        s.push_str(ATTR_ALPHABET[*v as usize % ATTR_ALPHABET.len()]);
+    }
+    s.push('"');
+    s
 }
 
 pub const SPLICES: &[&str] = &[
@@ -1378,9 +1397,7 @@ pub const SPLICES: &[&str] = &[
     // legacy colour attributes (honoured with use_doc_css), well- and ill-formed
     " color=\"#00aabb\"",
     " bgcolor=00aabb",
-    " bgcolor=\"f\u{e9}0000\"",
     " color=\"\u{e9}\u{e9}\u{e9}\u{e9}\"",
-    " bgcolor=\"ab\u{4e2d}cdef\"",
     " color=red",
     " bgcolor=\"#zz\"",
     " style=\"color:red;;display:none\"",
@@ -1410,6 +1427,7 @@ pub fn mutations() -> BoxedStrategy<Vec<Mutation>> {
         2 => (any::<u16>(), any::<u8>()).prop_map(|(a, b)| Mutation::Flip(a, b)),
         5 => (any::<u16>(), 0u8..(SPLICES.len() as u8)).prop_map(|(a, k)| Mutation::Insert(a, k)),
         1 => any::<u16>().prop_map(Mutation::Truncate),
+        3 => (any::<u16>(), 0u8..(ATTR_NAMES.len() as u8), prop::collection::vec(0u8..(ATTR_ALPHABET.len() as u8), 0..12)).prop_map(|(a, n, v)| Mutation::Attr(a, n, v)),
     ];
     prop::collection::vec(m, 1..6).boxed()
 }
@@ -1462,6 +1480,21 @@ pub fn mutate(html: &[u8], ms: &[Mutation]) -> Vec<u8> {
             Mutation::Truncate(a) => {
                 let p = pos(*a, len);
                 v.truncate(p);
+            }
+            Mutation::Attr(a, n, val) => {
+                // right after a tag name if there is one at or after the position, else at the position
+                let p0 = pos(*a, len);
+                let p = (p0..len)
+                    .find(|i| v[*i] == b'<' && v.get(*i + 1).map_or(false, |c| c.is_ascii_alphabetic()))
+                    .map(|i| {
+                        let mut j = i + 1;
+                        while j < len && v[j].is_ascii_alphanumeric() {
+                            j += 1;
+                        }
+                        j
+                    })
+                    .unwrap_or(p0);
+                v.splice(p..p, attr_text(*n, val).into_bytes());
             }
         }
     }
